@@ -17,6 +17,9 @@ Part B2 single-preemption sweeps at line granularity.  Thread 0 is suspended rig
         objects); thread 1 then parses and serializes another packet of the class to completion; thread 0
         resumes.  k runs over every line of the run-time selection / expression evaluation code and a
         seeded sample of the other lines.  Deterministic: no timing is involved.
+Part D  same-named live classes.  Two different declarations rendered under the same class names by two factory
+        functions of one module (both alive); operations on their packets are interleaved and compared with what each
+        declaration does when defined alone in a module of its own.
 Part C  free-running threads with yield injection (sys.monitoring LINE events inside
         bisturi/*.py, setswitchinterval(1e-6)); each thread checks only its own packets against
         values computed sequentially beforehand.
@@ -31,7 +34,7 @@ from ..common import rng_for, b2j
 
 LEVEL = "exploration"
 SHARDS = {"quick": 1, "thorough": 16}
-REQUIRED = ("single_preemption_schedules", "single_preemption_schedules_inside_run_time_selection_or_expression",
+REQUIRED = ("same_name_pairs_defined", "same_name_operations", "same_name_bystander_repacks", "single_preemption_schedules", "single_preemption_schedules_inside_run_time_selection_or_expression",
             "free_thread_declarations_with_a_shared_options_table", "pack_outputs_compared_with_reference_encoding", "bytearray_values_assigned", "history_operations", "bystander_comparisons", "alias_scans", "repeated_pack_checks", "ops_unpack", "ops_construct",
             "ops_set_leaf", "ops_list_append", "ops_set_nested", "ops_pack", "interleavings_executed", "thread_results_compared",
             "free_thread_operations", "context_switches_in_bisturi", "f2_probe_runs")
@@ -891,6 +894,101 @@ def free_part(run, benches, rng, nthreads, nops):
         run.case(key="C:%d" % i, nontrivial=True, n=0)
 
 
+# ------------------------------------------------------------------------------------------ part D
+def same_name_part(run, rng, npairs, nops):
+    """Two different declarations whose classes carry the SAME names, defined by two factory functions of one module and
+    both alive (a class factory, a test module that builds variants): operations on packets of one must not change
+    packets of the other.  Expected results come from each declaration defined alone in a module of its own."""
+    from .. import spec
+    prof = dict(PROFILE, p_local_classes=0.0, max_depth=2, max_fields=5, p_describe=0.1)
+    d = common.scratch_dir("bvf_c13d_")
+    try:
+        for _ in range(npairs):
+            fams = [spec.gen_family(rng, prof), spec.gen_family(rng, prof)]
+            alone = []
+            try:
+                for fam in fams:
+                    alone.append(harness.Bench(fam, VARIANTS, d, instrument=(), local=True))
+            except Exception:
+                for b in alone:
+                    b.close()
+                run.count("same_name_pairs_not_definable")
+                continue
+            work = []       # (which, variant, raw, expected)
+            for which, (fam, b) in enumerate(zip(fams, alone)):
+                for v in ("g", "d"):
+                    for _i in range(5):
+                        raw, oc = model.generate_input(fam, rng, maxlen=60)
+                        seq = sequential_result(fam, b.root(v), raw)
+                        if seq is not None and seq[2][0] == "ok":
+                            work.append((which, v, raw, seq))
+            for b in alone:
+                b.close()
+            if len(set(w[0] for w in work)) < 2:
+                continue
+            parts = []
+            for tag, fam in zip("ab", fams):
+                src = render.family_src(fam, VARIANTS, local=True)
+                src = src.replace("def _make_classes():", "def _make_%s():" % tag).replace("globals().update(_make_classes())", "%s = _make_%s()" % (tag.upper(), tag))
+                parts.append(src)
+            shared_src = "\n".join(parts)
+            try:
+                module, path = render.load_source(shared_src, d)
+            except Exception as e:
+                run.violation("two same-named declarations cannot be defined by two factories of one module: %s: %s" % (type(e).__name__, str(e)[:120]),
+                              {"source": shared_src}, None)
+                continue
+            run.count("same_name_pairs_defined")
+            tables = (module.A, module.B)
+            for t in tables:
+                for c in t.values():
+                    if isinstance(c, type):
+                        harness.track_end(c)
+            kept = []
+            bad = False
+            for step in range(nops):
+                which, v, raw, seq = rng.choice(work)
+                fam = fams[which]
+                cls = tables[which]["%s_%s" % (fam["root"], v)]
+                r = harness.lib_unpack(cls, raw)
+                got = None
+                if r.status == "ok":
+                    try:
+                        got = (monitors.pkt_to_pv(fam, fam["root"], r.pkt), r.end, pack_outcome(r.pkt))
+                    except monitors.Unreadable as e:
+                        got = ("unreadable", str(e))
+                else:
+                    got = (r.status, getattr(r, "etype", None))
+                run.count("same_name_operations")
+                run.case(key=("D", step % 7, which), nontrivial=True)
+                if got != seq:
+                    run.violation("a packet of one class is parsed / serialized differently once a different class of the same name (another factory "
+                                  "of the same module) is alive",
+                                  {"source": shared_src, "class": "%s_%s of factory %s" % (fam["root"], v, "AB"[which]), "raw": b2j(raw), "step": step,
+                                   "got": got[0].to_json() if isinstance(got[0], model.PV) else repr(got)[:300], "want": seq[0].to_json(),
+                                   "got_bytes": got[2] if len(got) > 2 else None, "want_bytes": seq[2]}, None)
+                    bad = True
+                    break
+                kept.append((r.pkt, seq[2]))
+                if len(kept) > 6:
+                    kept.pop(0)
+                for pkt, want in kept[:-1]:
+                    run.count("same_name_bystander_repacks")
+                    out = pack_outcome(pkt)
+                    if out != want and "timeout" not in out:
+                        run.violation("a packet parsed earlier serializes differently after packets of a same-named class were used",
+                                      {"source": shared_src, "before": want, "after": out, "step": step}, None)
+                        bad = True
+                        break
+                if bad:
+                    break
+            sys.modules.pop(module.__name__, None)
+            if run.counters["violations"] > 20:
+                return
+    finally:
+        common.drop_scratch(d)
+
+
 # ------------------------------------------------------------------------------------------ probes / run
 def f2_probe(run):
     d = common.scratch_dir("bvf_c13p_")
@@ -939,6 +1037,10 @@ def run(run):
             preemption_sweep(run, bench, rng, cap)
             if run.counters["violations"] > 20:
                 return
+    # Part D: same-named live classes of two factories
+    same_name_part(run, rng, 30 if quick else 120, 24 if quick else 60)
+    if run.counters["violations"] > 20:
+        return
     # Part C
     nb, nops = (6, 300) if quick else (12, 1500)
     benches = []
